@@ -113,7 +113,7 @@ func c17Start(n int, maxCount int64) (*c17Cluster, error) {
 			RootDir:    dir,
 			RpcHost:    "localhost",
 			RpcPort:    ports[i],
-			RpcTimeout: 5,
+			RpcTimeout: c17RpcTimeout,
 			RpcRetries: 1,
 			// every node lists the same set of servers, starting with itself (a valid configuration: placement is a
 			// function of the set)
@@ -1144,6 +1144,15 @@ func runC17(rc *runCtx) error {
 	errs := make([]error, len(jobs))
 	ch := make(chan int)
 	var wg sync.WaitGroup
+	// the slow-request scenario (c17slow.go) runs in a process of its own beside the histories
+	var slowTerm string
+	var slowSample map[string]any
+	var slowErr error
+	wg.Add(1)
+	go func() {
+		defer wg.Done()
+		slowTerm, slowSample, slowErr = c17RunSlow(rc)
+	}()
 	for w := 0; w < 6; w++ {
 		wg.Add(1)
 		go func() {
@@ -1200,6 +1209,12 @@ func runC17(rc *runCtx) error {
 			rc.addSample(s)
 		}
 	}
+	if slowErr != nil {
+		return slowErr
+	}
+	add(slowTerm)
+	hist["slow requests on a healthy cluster (every shard callback held 5.5 s)"]++
+	rc.addSample(slowSample)
 	// the per-shard limit over the whole API range (limit 1..100) for 1..6 shards, plus wider ones
 	r := newRng(rc.seed, 1717)
 	for n := 1; n <= 6; n++ {
